@@ -151,6 +151,11 @@ func (f *Filter) Filter(subject any) {
 		if f.filterGatewayServices(&v.Gateways) {
 			v.ResultsFilteredByACLs = true
 		}
+		// Internal.ServiceDump lists the mappings of every gateway and, unlike
+		// Catalog.GatewayServices, has not authorized any gateway name beforehand.
+		if f.filterGatewayServicesByGateway(&v.Gateways) {
+			v.ResultsFilteredByACLs = true
+		}
 		if f.filterCheckServiceNodes(&v.ImportedNodes) {
 			v.ResultsFilteredByACLs = true
 		}
@@ -843,6 +848,26 @@ func (f *Filter) filterGatewayServices(mappings *structs.GatewayServices) bool {
 
 		if f.authorizer.ServiceRead(s.Service.Name, &authzContext) != acl.Allow {
 			f.logger.Debug("dropping service from result due to ACLs", "service", s.Service.String())
+			removed = true
+			continue
+		}
+		ret = append(ret, s)
+	}
+	*mappings = ret
+	return removed
+}
+
+// filterGatewayServicesByGateway removes the mappings whose gateway the token may not read.
+// Returns true if any elements were removed.
+func (f *Filter) filterGatewayServicesByGateway(mappings *structs.GatewayServices) bool {
+	ret := make(structs.GatewayServices, 0, len(*mappings))
+	var removed bool
+	for _, s := range *mappings {
+		var authzContext acl.AuthorizerContext
+		s.Gateway.FillAuthzContext(&authzContext)
+
+		if !f.allowService(s.Gateway.Name, &authzContext) {
+			f.logger.Debug("dropping gateway mapping from result due to ACLs", "gateway", s.Gateway.String())
 			removed = true
 			continue
 		}
